@@ -393,6 +393,72 @@ def run_free_history(acc: Acc, case):
     return fails
 
 
+def run_concurrent_history(acc: Acc, case):
+    """A sequential prefix (S/F) and then 2-4 OVERLAPPING requests on one inverter object (they are served one after the other in
+    arrival order).  Processed in completion order the counter rule is the same: success -> 0, failure -> previous + 1."""
+    import asyncio
+    from goodwe.exceptions import RequestFailedException
+    acc.case()
+    family, port = case["family"], case["port"]
+    T, R = 0.5, 0
+    acc.nontrivial("Bconc", family, port, case["keep"], case["prefix"], case["group"], tuple(case["offsets"]))
+    sim = make_sim(family)
+    actions = []
+    for ch in case["prefix"] + case["group"]:
+        actions.append(("answer", 0.125) if ch == "S" else ("drop",))
+    peer = ScriptedPeer(responder(family, port, sim), actions, default=("drop",))
+    world = World(peer)
+    loop = VLoop(world, max_time=1e5)
+    inv = make_inverter(family, port, T, R, case["keep"])
+    done = []
+
+    async def one(tag, delay):
+        await asyncio.sleep(delay)
+        try:
+            await inv.read_setting("modbus-1793" if family == "ES" else "modbus-47000")
+            done.append((loop.vtime, tag, "ok", None))
+        except BaseException as ex:  # noqa
+            done.append((loop.vtime, tag, type(ex).__name__, ex))
+
+    async def main():
+        for i, ch in enumerate(case["prefix"]):
+            await one("p%d" % i, 0)
+        await asyncio.gather(*[one("g%d" % i, off / 16.0) for i, off in enumerate(case["offsets"][:len(case["group"])])])
+
+    out = loop.run(main())
+    loop.idle()
+    loop.shutdown()
+    if out.hang is not None or out.exc is not None:
+        return [("C09|B|hang", "concurrent history: %r %r" % (out.hang, out.exc), case)]
+    count = 0
+    for t, tag, kind, ex in done:      # completion order (the list is appended as the calls finish)
+        if kind == "ok":
+            count = 0
+        elif isinstance(ex, RequestFailedException):
+            count += 1
+            if ex.consecutive_failures_count != count:
+                return [("C09|B|wrong-count|overlapping-requests", "prefix %s then overlapping requests %s (start offsets %s): call %s finished at %r with "
+                         "consecutive_failures_count=%r, %d failed requests since the last success (completion order %s)" % (
+                             case["prefix"], case["group"], case["offsets"], tag, t, ex.consecutive_failures_count, count,
+                             [(g, k) for _, g, k, _ in done]), case)]
+        else:
+            return [("C09|A|%s|%s" % (kind, _innermost_goodwe_frame(ex)), "read_setting raised %r in a concurrent history" % (ex,), case)]
+    return []
+
+
+def conc_job(job):
+    family, port, keep = job
+    acc = Acc()
+    for prefix in ("", "S", "F", "FF", "SF", "FS"):
+        for n in (2, 3, 4):
+            for group in itertools.product("SF", repeat=n):
+                for offsets in ((0, 0, 0, 0), (0, 1, 2, 3), (0, 3, 3, 9)):
+                    case = {"conc": True, "family": family, "port": port, "keep": keep, "prefix": prefix, "group": "".join(group), "offsets": list(offsets)}
+                    _apply(acc, case, run_concurrent_history)
+    acc.sample({"conc": True, "family": family, "port": port, "keep": keep, "prefix": "FF", "group": "SF", "offsets": [0, 1, 2, 3]})
+    return acc
+
+
 def hyp_b_job(job):
     seed, n = job
     from hypothesis import strategies as st
@@ -585,6 +651,8 @@ def run(ctx):
     ctx.shard(hist_job, hjobs, "B: all histories over {S,F,R} of length 2..8 (lengths 0..1 trivial)")
     ctx.exhaustive_parts.append("B: all 3^2..3^8 histories over {success, failed, rejected} and all histories up to length %d over {success, "
                                 "failed by silence, rejected, failed by transport error} per listed (family, port, keep-alive)" % ctx.pick(5, 7))
+    ctx.shard(conc_job, [(f, p, k) for (f, p) in (("ET", 8899), ("ET", 502), ("DT", 8899), ("ES", 8899)) for k in (False, True)],
+              "B: sequential prefix then 2-4 overlapping requests (all S/F patterns x start offsets), counter in completion order")
     nb = ctx.pick(1600, 30000)
     ctx.shard(hyp_b_job, [(ctx.seed * 1000 + 500 + i, nb // 16) for i in range(16)], "B: hypothesis histories of single requests with free fault scripts (counter follows the observed outcomes)")
     m = ctx.pick(1200, 25000)
@@ -597,7 +665,9 @@ def run(ctx):
 
 
 def replay(ctx, case):
-    if case.get("free"):
+    if case.get("conc"):
+        _apply(ctx.acc, case, run_concurrent_history)
+    elif case.get("free"):
         _apply(ctx.acc, case, run_free_history)
     elif "hist" in case:
         _apply(ctx.acc, case, run_history)
